@@ -155,4 +155,10 @@ theorem runAll_congr (f g : W → S → W × Except E R) (w : W) (ss : List S) (
       | ok r' => simp [ih w' (fun w x hx => h w x (by simp [hx]))]
 end
 
+theorem runAll_tx_inserts (c r ns : List Nat) :
+    runAll txExec ⟨c, some r⟩ (ns.map .ins) = (⟨c, some (r ++ ns)⟩, ns.map (fun _ => ()), none) := by
+  induction ns generalizing r with
+  | nil => simp [runAll]
+  | cons n ns ih => simp [runAll, txExec, ih (r ++ [n])]
+
 end Fs.Split
